@@ -34,6 +34,23 @@ def signals(ctx, r, protos):
     sigs.append(('constant-pair', [500, -1500] * 12))
     sigs.append(('constant-pair', [431, -287] + [172, -460] * 6))
     sigs.append(('two-values', [600, -600] * 5 + [1200, -600] * 5))
+    # families that share their burst pairs: a signal with two kinds of data pair, then the degenerate keys made of only
+    # one of them (all-zeros / all-ones of the same remote), decoded one after the other on the SAME long-lived instance
+    for _ in range(6 if not ctx.thorough else 40):
+        lead = [r.choice([2400, 4500, 9000]), -r.choice([600, 2250, 4500])]
+        m = r.choice([400, 450, 550, 600])
+        s0, s1 = r.sample([400, 550, 600, 1200, 1650, 1700], 2)
+        tail = [m, -r.choice([20000, 30000, 45000])]
+        nb = r.randint(4, 12)
+        pat = [r.randint(0, 1) for _ in range(nb)]
+        if len(set(pat)) == 1:
+            pat[0] ^= 1
+        mk = lambda bits: lead + [x for b in bits for x in (m, -(s1 if b else s0))] + tail
+        sigs.append(('family-mixed', mk(pat)))
+        sigs.append(('family-ones', mk([1] * nb)))
+        sigs.append(('family-zeros', mk([0] * nb)))
+        sigs.append(('family-mixed', mk(pat[::-1])))
+        sigs.append(('family-ones', mk([1] * nb)))
     return sigs
 
 
